@@ -144,13 +144,12 @@ def r1(R1, R3, cfg, F):
     ok = len(rd) == 1 and len(wc) == 1
     if ok:
         ok = cb.access_path(rd[0].args[2]) == ['arg2'] and cb.origins(rd[0].args[1], passthrough=common.pt_deref) == {('upvar', 1)} and cb.origins(rd[0].args[0]) == {('upvar', 0)}
-        src = cb.downcast_source(wc[0].args[0])
-        ok = ok and bool(src) and src[1] == 'Continue' and [r.bb for r in cb.call_roots(src[0], passthrough=common.PT_TRY)] == [rd[0].bb]
+        # (normal form) the content handed to the loader is the Ok payload of that read, the asset returned the Ok payload of the loader
+        ok = ok and common.deep_path(cb, wc[0].args[0]) == ['call@bb%d' % rd[0].bb, 'as:Ok', '0']
         rets = [s for _, _, s in cb.assigns() if s['place']['l'] == 0 and s['rv']['k'] == 'aggregate' and s['rv'].get('variant_name') == 'Ok']
         ok = ok and len(rets) == 1
         if ok:
-            s2 = cb.downcast_source(rets[0]['rv']['ops'][0])
-            ok = bool(s2) and s2[1] == 'Continue' and [r.bb for r in cb.call_roots(s2[0], passthrough=common.PT_TRY)] == [wc[0].bb]
+            ok = common.deep_path(cb, rets[0]['rv']['ops'][0]) == ['call@bb%d' % wc[0].bb, 'as:Ok', '0']
     R1.check(ok, cfg, cb.path, 'read(id,ext)?-then-loader-on-its-content', 'an attempt must read exactly (id, ext) and decode exactly the content that was read', cb.loc())
     lb = F.body('asset::load_from_source::{closure#0}::{closure#0}')
     if lb:
@@ -437,6 +436,5 @@ def r6(R6, cfg, F):
         nw = [c for c in ab.calls() if c.callee and c.callee.best == 'std::sync::Arc::<T>::new']
         ok = len(ld) == 1 and len(nw) == 1 and [ab.origins(a) for a in ld[0].args] == [{('arg', 1)}, {('arg', 2)}]
         if ok:
-            s = ab.downcast_source(nw[0].args[0])
-            ok = bool(s) and s[1] == 'Continue' and [r.bb for r in ab.call_roots(s[0], passthrough=common.PT_TRY)] == [ld[0].bb]
+            ok = common.deep_path(ab, nw[0].args[0]) == ['call@bb%d' % ld[0].bb, 'as:Ok', '0']
         R6.check(ok, cfg, ab.path, 'Arc<T>=Arc::new(T::load(cache,id)?)', 'Arc<T> must load exactly T for the same (cache, id)', ab.loc())
